@@ -37,7 +37,8 @@ def render_file(f, items):
         elif it["t"] == "j":
             out += "JSIGHT 0.3\n"
         else:
-            out += "INCLUDE %s\n" % it["w"]
+            # the written name is the parameter after unquoting (F-49): every second INCLUDE spells it in double quotes
+            out += ("INCLUDE \"%s\"\n" if i % 2 == 0 else "INCLUDE %s\n") % it["w"]
     return out, pos
 
 
